@@ -11,6 +11,10 @@ CLAIMED = {
     text="Contracts on PointsDataset / DeepONetDataset / DeepONetDataset_Unique with symbolic data-set sizes, batch sizes and batch index: row-provenance postconditions on __getitem__ (pairing, also through shuffles), batch-size bound, __len__ characterisation and coverage lemmas with ghost witnesses, all discharged by z3 (nonlinear integer arithmetic with explicit lemmas). The coverage defect of DeepONetDataset is exhibited on concrete instances (bounded, known finding F17).",
     note="A2, A3 (torch indexing/cat/randperm, np.lcm/ceil models), A5 DataLoader(batch_size=None) yields ds[0..len-1] once each, A9. DataCondition.forward aggregation is not yet under contract.",
     tech="contract-based deductive verification: VCs generated from the AST of the real source by a symbolic interpreter, discharged by z3/cvc5"),
+ "C15": dict(cat="proof", sec="DESIGN 4/C15",
+    text="Inductive contract of StaticSampler.sample_points (ghost use-counter, arbitrary invariant state, symbolic interval or infinity, wrapped sampler abstract) and retain-set postconditions of both adaptive samplers (symbolic point count, symbolic ratio, the code's own rand_like draw), discharged by z3 for all point counts, intervals and histories (induction over calls).",
+    note="A1 reals, A2, A3 (torch.min/max/boolean-mask assignment models), abstract Domain/PointSampler operand contracts (refinement by concrete classes is C01/C02), A9. 'with the stated probability' is reduced to the code's own uniform draw; the law of that draw is not decided.",
+    tech="contract-based deductive verification: 2-state inductive invariant + postconditions, VCs from the real AST, z3"),
 }
 NA = {
  "C19": "restore fidelity is a property of Lightning's checkpoint / torch.save machinery, the file system and process restarts; no contract on a repo function expresses it (DESIGN 4/C19)",
